@@ -29,6 +29,15 @@ CHECKS = {
  "C15": ("exploration", "exhaustive enumeration of all 8/16-bit values and all boundary values of wider types for every (Rust type, column kind) pair, plus proptest-generated wide values; oracle = mathematical equality after decoding at the column's wire width, acceptance model from the property",
          "Finite sub-domains are enumerated completely (all u8/i8/u16/i16 values x 12 column kinds; all 2^k, 2^k+-1 and range bounds of the wider types incl. usize/isize and generic Value::Int/UInt); random wide values on top; a sample of each set also travels through a real binary resultset.",
          "The public encoder to_mysql_bin is what RowWriter calls for every non-NULL cell; assert!-refusals count as refusals."),
+ "C09": ("exploration", "proptest-generated column-descriptor lists at three sites (text header, binary header, PREPARE reply); round-trip oracle through the reference column-definition decoder, mysql_common's Column parser as second opinion",
+         "Generated search over 0-1023 descriptors with names up to 70000 bytes (biased to the length-encoding class edges 250/251 and 65535/65536), every ColumnType variant and all 16 flag bits, arbitrary statement ids; the decoded metadata must equal the declared metadata field by field and in order.",
+         "Fields the property does not mention (charset, length, decimals, org_name) are not asserted."),
+ "C13": ("exploration", "enumeration of all ErrorKind variants (list re-read from the source at build time) x reporting sites, proptest-generated messages; oracle = decoded ERR packet (own decoder + mysql_common::ErrPacket) equals (kind as u16, kind.sqlstate(), message); table checks against the mysql crate's code table, curated SQLSTATE pairs and a pinned snapshot",
+         "Exhaustive over defined error kinds (every kind at >= 1 site in the quick tier, every kind x every site in the thorough tier) with generated messages incl. empty, 70000-byte, non-UTF-8, '#', NUL, 0xFF; numeric code <-> kind conversion checked both ways for every variant.",
+         "The SQLSTATE snapshot is a change detector for the table of the pinned tree (stated in the evidence)."),
+ "C14": ("exploration", "enumeration of B x B boundary pairs plus proptest-generated u64 pairs and zero-column row counts; oracle = decoded OK packet (own decoder + mysql_common OkPacket parser) carries exactly the reported numbers",
+         "All pairs over the length-encoded-integer class boundaries (250/251, 2^16, 2^24, 2^32, 2^63, 2^64-1) in text and binary mode, chains of up to 4 completions, zero-column resultsets with 0-70000 ended rows in end_row / write_row mixes.",
+         "None beyond the reference OK decoder."),
 }
 NOT_YET = {}
 
